@@ -148,7 +148,7 @@ func (c *c06Gen) floatLit() frag {
 	return frag{tk(text), pAtom, "num(" + encFloat(v) + ")"}
 }
 
-var c06StrRunes = []rune{'a', 'b', 'Z', '0', ' ', '\'', '"', '\\', '\n', '\t', 0, 0x7f, 0xe9, 0x20ac, 0x1f600, '{', '#', '\r', 7, 8, 12, 11, 'n', 'x', 'u', 'N', 0xff}
+var c06StrRunes = []rune{'a', 'b', 'Z', '0', ' ', '\'', '"', '\\', '\n', '\t', 0, 0x7f, 0xe9, 0x20ac, 0x1f600, '{', '#', '\r', 7, 8, 12, 11, 'n', 'x', 'u', 'N', 0xff, '7', '8', '9', 1, 0o12, 0o77}
 
 func (c *c06Gen) strValue(maxLen int) string {
 	n := c.g.Int(0, maxLen)
@@ -239,7 +239,14 @@ func (c *c06Gen) spellStr(value string) string {
 			nextOct := i+1 < len(rs) && rs[i+1] >= '0' && rs[i+1] <= '7'
 			opts = append(opts, fmt.Sprintf("\\%03o", r))
 			if !nextOct {
+				// one or two digits: a following 8 or 9 is not part of the escape
 				opts = append(opts, fmt.Sprintf("\\%o", r))
+				if r < 0o100 {
+					opts = append(opts, fmt.Sprintf("\\%02o", r))
+				}
+				if i+1 < len(rs) && (rs[i+1] == '8' || rs[i+1] == '9') {
+					opts = append(opts, fmt.Sprintf("\\%o", r), fmt.Sprintf("\\%o", r))
+				}
 			}
 		}
 		if r < 0x10000 {
@@ -287,21 +294,36 @@ func (c *c06Gen) bytesLit() frag {
 	quote := g.Str("'", "\"")
 	var sb strings.Builder
 	sb.WriteString(prefix + quote)
+	if !raw {
+		for i := range val {
+			val[i] = byte(g.N(256))
+			if g.Chance(1, 4) {
+				val[i] = g.Str("7", "8", "9", "\x01", "\n", "?")[0]
+			}
+		}
+	}
 	for i := range val {
 		if raw {
 			val[i] = byte(g.Str("a", "z", " ", "0", "#")[0])
 			sb.WriteByte(val[i])
 			continue
 		}
-		b := byte(g.N(256))
-		val[i] = b
+		b := val[i]
 		lit := b >= 0x20 && b < 0x7f && b != '\\' && b != quote[0]
 		if lit && !g.Chance(1, 4) {
 			sb.WriteByte(b)
 			continue
 		}
-		nextOct := false // the next byte is generated later; use three digits always
-		_ = nextOct
+		nextOct := i+1 < len(val) && val[i+1] >= '0' && val[i+1] <= '7'
+		if !nextOct && g.Chance(1, 3) {
+			// short octal escape: a following 8 or 9 is not part of it
+			if b < 0o100 && g.Chance(1, 2) {
+				fmt.Fprintf(&sb, "\\%02o", b)
+			} else {
+				fmt.Fprintf(&sb, "\\%o", b)
+			}
+			continue
+		}
 		switch g.N(3) {
 		case 0:
 			fmt.Fprintf(&sb, "\\x%02x", b)
